@@ -35,6 +35,44 @@ class Case:
             d["note"] = self.note
         return d
 
+def expand(kv):
+    """Split the o<k> results of a run case into named observables."""
+    if kv is None or "n" not in kv:
+        return kv
+    out = dict(kv)
+    stop = None
+    for k in range(int(kv.get("n", "0"))):
+        r = kv.get("o%d" % k)
+        if r is None:
+            continue
+        out.pop("o%d" % k)
+        p = r.split("|")
+        pre = "o%d." % k
+        if p[0] == "P":
+            out[pre + "prep"] = p[1]
+            if len(p) > 3:
+                out[pre + "uprog"] = p[2]
+                out[pre + "prog"] = p[3]
+        elif p[0] in ("E", "R"):
+            out[pre + "class"] = p[1]
+            out[pre + ("value" if p[0] == "E" else "truth")] = p[2]
+            out[pre + "trace"], out[pre + "vars"], out[pre + "scopes"], out[pre + "residue"] = p[3], p[4], p[5], p[6]
+        elif p[0] == "G":
+            out[pre + "get"] = p[1]
+        elif p[0] == "U":
+            out[pre + "unit"] = "1"
+        elif p[0] == "X":
+            out[pre + "crash"] = "1"
+        elif p[0] in ("N", "Q"):
+            stop = k
+            break
+    if stop is not None:
+        out["need_from"] = str(stop)
+    return out
+
+def obs_suffix(o):
+    return o.split(".", 1)[1] if "." in o else o
+
 class Prop:
     id = "C00"
     need_cli = False
@@ -43,6 +81,8 @@ class Prop:
     # failing input), the others are internal stages (correspondence only).
     compare_obs = ()
     property_obs = ()
+    compare_run = False          # compare every o<k>.<obs> of run cases
+    ignore_obs = ()              # observable suffixes not compared at all
     rule = ""
     def cases(self, rng, tier):
         return []
@@ -60,7 +100,8 @@ class Prop:
         """Relational oracle over groups of cases (Go against Go). groups: name -> [cases]."""
         return []
     def model_dropped(self, model):
-        return model is None or "need" in model or "unsupported" in model or model.get("tokens") == "FUEL" or "fuel" in model
+        return (model is None or "need" in model or "unsupported" in model or model.get("tokens") == "FUEL"
+                or "fuel" in model or "driver_error" in model or model.get("need_from") == "0")
     def extra_checks(self, tier, st):
         """Property-specific checks beyond the case streams. Returns (violations, info)."""
         return [], {}
@@ -114,7 +155,11 @@ def run_check(prop, tier, seed):
     if st["harness"] and lines:
         go, gocrash = vlib.run_go(lines, tag=prop.id + "-go")
     if st["driver"] and lines:
-        model, mcrash = vlib.run_model(lines, tag=prop.id + "-model")
+        # standard-library answers observed on the Go side go to the model as oracle facts
+        mlines = [l + ("\tora=" + go[c.cid]["ora"] if c.cid in go and "ora" in go[c.cid] else "") for l, c in zip(lines, cases)]
+        model, mcrash = vlib.run_model(mlines, tag=prop.id + "-model")
+    go = {k: expand(v) for k, v in go.items()}
+    model = {k: expand(v) for k, v in model.items()}
 
     n_eval = 0
     dropped = 0
@@ -140,7 +185,16 @@ def run_check(prop, tier, seed):
         if prop.model_dropped(m):
             dropped += 1
             continue
-        diff = [o for o in prop.compare_obs if o in g or o in m if g.get(o) != m.get(o)]
+        keys = [o for o in prop.compare_obs if o in g or o in m]
+        if prop.compare_run:
+            lim = int(m["need_from"]) if "need_from" in m else 10 ** 9
+            keys += sorted(o for o in set(g) | set(m)
+                           if o[0] == "o" and "." in o and o[1:].split(".")[0].isdigit() and int(o[1:].split(".")[0]) < lim
+                           and obs_suffix(o) not in prop.ignore_obs)
+        diff = [o for o in keys if g.get(o) != m.get(o)
+                and not (obs_suffix(o) == "residue" and g.get(o.rsplit(".", 1)[0] + ".class") != "ok")]
+        if "hang" in g or "harness_panic" in g:
+            diff.append("harness")
         if diff:
             disagreements.append((c, diff, g, m))
     groups = {}
@@ -152,6 +206,13 @@ def run_check(prop, tier, seed):
 
     extra_viol, extra_info = prop.extra_checks(tier, st)
 
+    if os.environ.get("VERIF_DUMP"):
+        with open(os.environ["VERIF_DUMP"], "w") as f:
+            for (c, diff, g, m) in disagreements:
+                f.write(json.dumps(dict(script=vlib.unhxs(c.fields.get("script", "")), fields=c.fields, diff=diff,
+                                        go={o: g.get(o) for o in diff}, model={o: m.get(o) for o in diff})) + "\n")
+            for (c, d, g, m) in oracle_viol:
+                f.write(json.dumps(dict(script=vlib.unhxs(c.fields.get("script", "")), fields=c.fields, oracle=d)) + "\n")
     # ---- decide
     reported = 0
     seen_keys = set()
@@ -183,12 +244,13 @@ def run_check(prop, tier, seed):
     for (c, d) in extra_viol:
         report("property-violated", c, d)
     for (c, diff, g, m) in disagreements:
-        pdiff = [o for o in diff if o in prop.property_obs]
+        pdiff = [o for o in diff if o in prop.property_obs or obs_suffix(o) in prop.property_obs]
         if pdiff:
             report("property-violated", c,
                    "implementation and proved model differ on %s (model=%s, implementation=%s)" %
                    (",".join(pdiff), {o: m.get(o) for o in pdiff}, {o: g.get(o) for o in pdiff}), g, m)
-    internal = [(c, diff, g, m) for (c, diff, g, m) in disagreements if not [o for o in diff if o in prop.property_obs]]
+    internal = [(c, diff, g, m) for (c, diff, g, m) in disagreements
+                if not [o for o in diff if o in prop.property_obs or obs_suffix(o) in prop.property_obs]]
     found_input = any(k == "property-violated" for k, _ in violations)
     if internal and not found_input:
         c, diff, g, m = internal[0]
